@@ -589,7 +589,8 @@ pub mod c15_local {
 
 // ------------------------------------------------------------------------------------------
 // C15 — the MULTI-THREADED implementation (seq_join/multi_thread.rs), built only with
-// `--features "ipa-verif multi-threading"` (props/C15.json `extra_builds`, thorough tier).
+// `--features "ipa-verif multi-threading"` (props/C15.json `extra_builds`; since b17 in BOTH tiers: the quick tier
+// runs the pending-source scripts and a thin sample of the rest, ~600 cases in < 1 s).
 // Futures are spawned on tokio worker threads by the implementation, so per-poll internals are not
 // observable; compared are the OUTPUTS and their ORDER:
 //
@@ -598,18 +599,35 @@ pub mod c15_local {
 //   c15mt.par <n> <errs> <perm>        SeqJoin::parallel_join
 //   c15mt.dep <w> <n> <d>              task k completes once tasks k+1..k+d have started (d >= w: hang)
 //   response: OK:<i+j+…> | ERR:<e> | timeout
+//
+// (b17) SOURCE STREAMS THAT ARE THEMSELVES PENDING (channel- / network-fed inputs):
+//   c15mt.src <w> <n> <op>…   seq_join(w, source) over a scripted source; ops: s<k> the source may yield k more
+//                             tasks (its stored waker is woken), r<i> task i is released (oneshot) and completes on
+//                             its worker thread, p ONE poll_next — scripted only at moments at which the answer
+//                             cannot depend on thread timing (the next task to come out is unreleased, or nothing
+//                             is in flight: e.g. AFTER THE WINDOW HAS BEEN FULLY DRAINED while the source is open
+//                             but momentarily empty), a = next().await with a 2 s limit
+//                             response: one token per op: s, r, P | I<i> | N | T (await timed out)
+//   c15mt.slow <w> <n> <gap> <collect|try> <errs>   slow producer / fast consumer: a second task sends n
+//                             immediately-ready tasks into an unbounded channel, one every <gap> ms (0: one yield_now
+//                             between sends), then closes it; the consumer runs seq_join(w, rx).collect() or
+//                             .try_collect() (the tasks in <errs> fail)   response: OK:<i+j+…> | ERR:<e> | timeout
+//   The quick tier runs the pending-source scripts and a thin sample of the rest (generate: `thorough`).
 // ------------------------------------------------------------------------------------------
 #[cfg(feature = "multi-threading")]
 pub mod c15_mt {
     use std::{
+        future::Future,
         num::NonZeroUsize,
+        pin::Pin,
         sync::{
             Arc,
             atomic::{AtomicBool, Ordering},
         },
+        task::Poll,
     };
 
-    use futures::{StreamExt, stream};
+    use futures::{Stream, StreamExt, stream};
     use tokio::sync::oneshot;
 
     use super::super::{SeqJoin, seq_join, seq_try_join_all};
@@ -678,6 +696,132 @@ pub mod c15_mt {
                     out
                 })
             }
+            "c15mt.src" => {
+                let (w, n): (usize, usize) = (t[1].parse().unwrap(), t[2].parse().unwrap());
+                let ops: Vec<String> = t[3..].iter().map(ToString::to_string).collect();
+                block_on_timeout(60, async move {
+                    struct Src {
+                        budget: usize,
+                        next: usize,
+                        waker: Option<std::task::Waker>,
+                        gates: Vec<Option<oneshot::Receiver<()>>>,
+                    }
+                    let mut txs = vec![];
+                    let mut gates = vec![];
+                    for _ in 0..n {
+                        let (tx, rx) = oneshot::channel::<()>();
+                        txs.push(Some(tx));
+                        gates.push(Some(rx));
+                    }
+                    let src = Arc::new(std::sync::Mutex::new(Src { budget: 0, next: 0, waker: None, gates }));
+                    let source = {
+                        let src = Arc::clone(&src);
+                        stream::poll_fn(move |cx| {
+                            let mut s = src.lock().unwrap();
+                            if s.next >= n {
+                                Poll::Ready(None)
+                            } else if s.budget == 0 {
+                                // open, but momentarily empty
+                                s.waker = Some(cx.waker().clone());
+                                Poll::Pending
+                            } else {
+                                s.budget -= 1;
+                                let i = s.next;
+                                s.next += 1;
+                                let gate = s.gates[i].take().unwrap();
+                                let task: Pin<Box<dyn Future<Output = usize> + Send>> = Box::pin(async move {
+                                    gate.await.unwrap();
+                                    i
+                                });
+                                Poll::Ready(Some(task))
+                            }
+                        })
+                    };
+                    let mut joined = Box::pin(seq_join(NonZeroUsize::new(w).unwrap(), source));
+                    let mut out: Vec<String> = vec![];
+                    for op in &ops {
+                        let (c, arg) = op.split_at(1);
+                        match c {
+                            "s" => {
+                                let w = {
+                                    let mut s = src.lock().unwrap();
+                                    s.budget += arg.parse::<usize>().unwrap();
+                                    s.waker.take()
+                                };
+                                if let Some(w) = w {
+                                    w.wake();
+                                }
+                                out.push("s".into());
+                            }
+                            "r" => {
+                                if let Some(tx) = txs[arg.parse::<usize>().unwrap()].take() {
+                                    let _ = tx.send(());
+                                }
+                                out.push("r".into());
+                            }
+                            "p" => {
+                                let r = std::future::poll_fn(|cx| Poll::Ready(joined.as_mut().poll_next(cx))).await;
+                                out.push(match r {
+                                    Poll::Pending => "P".to_string(),
+                                    Poll::Ready(Some(i)) => format!("I{i}"),
+                                    Poll::Ready(None) => "N".to_string(),
+                                });
+                            }
+                            "a" => {
+                                out.push(match tokio::time::timeout(std::time::Duration::from_secs(2), joined.next()).await {
+                                    Err(_) => "T".to_string(),
+                                    Ok(Some(i)) => format!("I{i}"),
+                                    Ok(None) => "N".to_string(),
+                                });
+                            }
+                            _ => panic!("harness: unknown op {op}"),
+                        }
+                    }
+                    // whatever is still in flight is released before the join (and its scope) is dropped
+                    for tx in txs.iter_mut() {
+                        if let Some(tx) = tx.take() {
+                            let _ = tx.send(());
+                        }
+                    }
+                    drop(joined);
+                    out.join(" ")
+                })
+            }
+            "c15mt.slow" => {
+                let (w, n, gap): (usize, usize, u64) = (t[1].parse().unwrap(), t[2].parse().unwrap(), t[3].parse().unwrap());
+                let fallible = match t[4] {
+                    "try" => true,
+                    "collect" => false,
+                    k => panic!("harness: unknown consumer {k}"),
+                };
+                let errs: Vec<usize> = parse_nat_list(t[5]);
+                assert!(fallible || errs.is_empty(), "harness: collect() has no failing tasks");
+                block_on_timeout(60, async move {
+                    let (tx, rx) = futures::channel::mpsc::unbounded::<Pin<Box<dyn Future<Output = Result<usize, usize>> + Send>>>();
+                    let producer = tokio::spawn(async move {
+                        for i in 0..n {
+                            let is_err = errs.contains(&i);
+                            // if the join gave up early the receiver is gone; the result reports it
+                            let _ = tx.unbounded_send(Box::pin(async move { if is_err { Err(i) } else { Ok(i) } }));
+                            if gap == 0 {
+                                tokio::task::yield_now().await;
+                            } else {
+                                tokio::time::sleep(std::time::Duration::from_millis(gap)).await;
+                            }
+                        }
+                    });
+                    let joined = seq_join(NonZeroUsize::new(w).unwrap(), rx);
+                    let out = if fallible {
+                        use futures::TryStreamExt;
+                        fmt(joined.try_collect::<Vec<usize>>().await)
+                    } else {
+                        let items: Vec<Result<usize, usize>> = joined.collect().await;
+                        fmt(items.into_iter().collect::<Result<Vec<usize>, usize>>())
+                    };
+                    let _ = producer.await;
+                    out
+                })
+            }
             "c15mt.dep" => {
                 let (w, n, d): (usize, usize, usize) = (t[1].parse().unwrap(), t[2].parse().unwrap(), t[3].parse().unwrap());
                 block_on_timeout(2, async move {
@@ -719,13 +863,182 @@ pub mod c15_mt {
         out
     }
 
-    pub fn generate(rng: &mut Rng, _thorough: bool) -> Vec<String> {
+    /// A random script for `c15mt.src` in which every `p` is placed where its answer cannot depend on thread timing.
+    /// The bookkeeping below only decides WHICH op may come next (it is not compared with anything).
+    fn random_src_script(rng: &mut Rng, w: usize, n: usize, len: usize) -> Vec<String> {
+        let (mut budget, mut next, mut emitted, mut done) = (0usize, 0usize, 0usize, false);
+        let mut released = vec![false; n];
+        let mut ops: Vec<String> = vec![];
+        // what the refill loop of one poll draws
+        let refill = |budget: &mut usize, next: &mut usize, emitted: usize, done: &mut bool| {
+            while *next - emitted < w {
+                if *done {
+                    break;
+                }
+                if *next >= n {
+                    *done = true;
+                    break;
+                }
+                if *budget == 0 {
+                    break;
+                }
+                *budget -= 1;
+                *next += 1;
+            }
+        };
+        let mut ended = false;
+        for _ in 0..len {
+            if ended {
+                break;
+            }
+            match rng.below(5) {
+                0 => {
+                    let k = rng.usize_below(4);
+                    budget += k;
+                    ops.push(format!("s{k}"));
+                }
+                1 => {
+                    let un: Vec<usize> = (0..n).filter(|i| !released[*i]).collect();
+                    if !un.is_empty() {
+                        let i = *rng.pick(&un);
+                        released[i] = true;
+                        ops.push(format!("r{i}"));
+                    }
+                }
+                _ => {
+                    // what would a poll see?
+                    let (mut b, mut nx, mut d) = (budget, next, done);
+                    refill(&mut b, &mut nx, emitted, &mut d);
+                    let inflight = nx - emitted;
+                    if inflight == 0 {
+                        // nothing in flight: P while the source is open, N once it is exhausted — either way timing-free
+                        (budget, next, done) = (b, nx, d);
+                        ops.push(if rng.bool() { "p".into() } else if d { "a".into() } else { "p".into() });
+                        ended = d;
+                    } else if released[emitted] {
+                        (budget, next, done) = (b, nx, d);
+                        emitted += 1;
+                        ops.push("a".into());
+                    } else {
+                        (budget, next, done) = (b, nx, d);
+                        ops.push("p".into());
+                    }
+                }
+            }
+        }
+        // drain: let the source yield everything, release everything, await every result and the end
+        ops.push(format!("s{}", n + 1));
+        for i in 0..n {
+            if !released[i] {
+                ops.push(format!("r{i}"));
+            }
+        }
+        if !ended {
+            for _ in emitted..=n {
+                ops.push("a".into());
+            }
+        }
+        ops
+    }
+
+    /// (b17) scripts with a source that is itself pending
+    fn pending_source(rng: &mut Rng, thorough: bool, out: &mut Vec<String>) {
+        // the independent seed's witnesses first: window 3, the source hands out one task, the join drains it
+        // completely, is polled while the source is open but empty, and only then gets the rest
+        out.push("c15mt.src 3 3 s1 r0 a p s2 r1 r2 a a a".to_string());
+        out.push("c15mt.slow 4 12 5 collect -".to_string());
+        // the source stalls after k items until everything in flight has completed AND been yielded (window fully
+        // drained), is polled twice in that state, then resumes; k = n: the end of the source is only discovered
+        // after the drain
+        for n in 1..=5usize {
+            for w in 1..=4usize {
+                for k in 0..=n {
+                    for desc in [false, true] {
+                        let mut ops: Vec<String> = vec![format!("s{k}"), "p".into()];
+                        let mut first: Vec<usize> = (0..k).collect();
+                        if desc {
+                            first.reverse();
+                        }
+                        for r in &first {
+                            ops.push(format!("r{r}"));
+                        }
+                        for _ in 0..k {
+                            ops.push("a".into());
+                        }
+                        ops.push("p".into()); // drained: nothing in flight, the source is pending (k = n: exhausted)
+                        ops.push("p".into());
+                        ops.push(format!("s{}", n + 1));
+                        ops.push("p".into());
+                        let mut rest: Vec<usize> = (k..n).collect();
+                        if desc {
+                            rest.reverse();
+                        }
+                        for r in &rest {
+                            ops.push(format!("r{r}"));
+                        }
+                        for _ in k..=n {
+                            ops.push("a".into());
+                        }
+                        out.push(format!("c15mt.src {w} {n} {}", ops.join(" ")));
+                    }
+                }
+            }
+        }
+        // slow producer, fast consumer, scripted: one task at a time, each drained before the next is offered
+        for n in 1..=6usize {
+            for w in [1usize, 2, 3, 8] {
+                let mut ops: Vec<String> = vec![];
+                for i in 0..n {
+                    ops.push("s1".into());
+                    if (i + w) % 2 == 0 {
+                        ops.push("p".into());
+                    }
+                    ops.push(format!("r{i}"));
+                    ops.push("a".into());
+                    ops.push("p".into());
+                }
+                ops.push("a".into());
+                out.push(format!("c15mt.src {w} {n} {}", ops.join(" ")));
+            }
+        }
+        // pending before the first item, released before drawn, window larger than the input
+        for s in [
+            "c15mt.src 1 1 p p s1 p r0 a a",
+            "c15mt.src 2 3 r2 r1 r0 p s1 a p s1 a p s1 a a",
+            "c15mt.src 8 2 p s1 p r0 a p p s5 p r1 a a",
+            "c15mt.src 2 4 s2 p r1 p r0 a a p s2 p r3 p r2 a a a",
+        ] {
+            out.push(s.to_string());
+        }
+        for _ in 0..(if thorough { 1500 } else { 150 }) {
+            let n = 1 + rng.usize_below(8);
+            let w = 1 + rng.usize_below(5);
+            let len = 6 + rng.usize_below(20);
+            let ops = random_src_script(rng, w, n, len);
+            out.push(format!("c15mt.src {w} {n} {}", ops.join(" ")));
+        }
+        // slow producer feeding a channel, end to end: collect / try_collect, with and without a failing task
+        let mut slow: Vec<(usize, usize, u64)> = vec![(1, 6, 2), (3, 10, 1), (8, 5, 3), (2, 20, 0), (3, 30, 0)];
+        if thorough {
+            slow.extend([(4, 40, 2), (1, 25, 1), (16, 64, 0), (5, 100, 0), (2, 12, 10)]);
+        }
+        for (w, n, gap) in slow {
+            out.push(format!("c15mt.slow {w} {n} {gap} collect -"));
+            out.push(format!("c15mt.slow {w} {n} {gap} try -"));
+            out.push(format!("c15mt.slow {w} {n} {gap} try {}", n - 1));
+            out.push(format!("c15mt.slow {w} {n} {gap} try {}", rng.usize_below(n)));
+        }
+    }
+
+    pub fn generate(rng: &mut Rng, thorough: bool) -> Vec<String> {
         let mut out = vec![];
         for s in ["c15mt.join 1 0 - -", "c15mt.stream 3 0 -", "c15mt.par 0 - -", "c15mt.join 1 1 0 0", "c15mt.dep 1 4 0"] {
             out.push(s.to_string());
         }
-        // all completion orders for n <= 5, windows 1..8 (thinned for n = 5), error sets by index
-        for n in 1..=5usize {
+        pending_source(rng, thorough, &mut out);
+        // the quick tier runs a thin sample of what follows (the whole of it in the thorough tier)
+        // all completion orders for n <= 5 (quick: n <= 3), windows 1..8 (thinned for n = 5), error sets by index
+        for n in 1..=(if thorough { 5usize } else { 3 }) {
             for (pi, perm) in permutations(n).iter().enumerate() {
                 for w in 1..=8usize {
                     if n == 5 && (pi + w) % 4 != 0 {
@@ -742,7 +1055,7 @@ pub mod c15_mt {
             }
         }
         // every single error position (first / last / beyond the window)
-        for n in 1..=6usize {
+        for n in 1..=(if thorough { 6usize } else { 4 }) {
             for e in 0..n {
                 for w in [1usize, 2, 3, 8] {
                     let mut perm: Vec<usize> = (0..n).collect();
@@ -751,18 +1064,20 @@ pub mod c15_mt {
                 }
             }
         }
-        // dependencies reaching d tasks ahead: completes iff d < window; two hanging cases only (2 s each)
-        for w in 1..=6usize {
+        // dependencies reaching d tasks ahead: completes iff d < window; two hanging cases only (2 s each, thorough tier)
+        for w in 1..=(if thorough { 6usize } else { 3 }) {
             for d in 0..w {
                 for n in [1usize, 2, 5, 9, 40] {
                     out.push(format!("c15mt.dep {w} {n} {d}"));
                 }
             }
         }
-        out.push("c15mt.dep 2 6 2".to_string());
-        out.push("c15mt.dep 3 9 5".to_string());
+        if thorough {
+            out.push("c15mt.dep 2 6 2".to_string());
+            out.push("c15mt.dep 3 9 5".to_string());
+        }
         // longer random ones
-        for _ in 0..200 {
+        for _ in 0..(if thorough { 200 } else { 20 }) {
             let n = 1 + rng.usize_below(40);
             let w = 1 + rng.usize_below(8);
             let mut perm: Vec<usize> = (0..n).collect();
